@@ -638,7 +638,13 @@ func removeIPv6HintsRef(h *dns.HTTPS) {
 // plPlainBlock: r is a block rule "||name^" without modifiers whose name is
 // the host or a parent of it.
 func plPlainBlock(r *vfRule, host string) bool {
-	if r.IsHost || r.White || r.Badfilter || len(r.DTPerm)+len(r.DTRestr)+len(r.ClPerm)+len(r.ClRestr)+len(r.Denyallow) > 0 {
+	return !r.White && plPlainPattern(r, host)
+}
+
+// plPlainPattern: r is "||name^" or "@@||name^" without modifiers whose name
+// is the host or a parent of it.
+func plPlainPattern(r *vfRule, host string) bool {
+	if r.IsHost || r.Badfilter || len(r.DTPerm)+len(r.DTRestr)+len(r.ClPerm)+len(r.ClRestr)+len(r.Denyallow) > 0 {
 		return false
 	}
 	p := strings.ToLower(r.Pattern)
@@ -707,7 +713,7 @@ func plEffective(c *plCfg, q *plQuery) (protection, filteringOn, sb, par bool, s
 	return
 }
 
-// plHostVerdict: +1 the host must be blocked by rule lists, -1 no rule list,
+// plHostVerdict: +2 the host is plainly on the allow list, +1 the host must be blocked by rule lists, -1 no rule list,
 // service, safe-browsing or parental entry concerns it, 0 no claim.
 func plHostVerdict(c *plCfg, q *plQuery, host string) int {
 	protection, filteringOn, sb, par, svcs := plEffective(c, q)
@@ -716,9 +722,19 @@ func plHostVerdict(c *plCfg, q *plQuery, host string) int {
 	}
 	related := false
 	if filteringOn {
+		allowBad := false
+		for _, r := range c.Allow {
+			if r.Badfilter {
+				allowBad = true
+			}
+		}
 		for _, r := range c.Allow {
 			if plRelated(r, host) {
 				related = true
+			}
+			if !allowBad && plPlainPattern(r, host) {
+				// a plain allow-list entry for the name: must be let through
+				return 2
 			}
 		}
 		must := false
@@ -869,3 +885,24 @@ func plMsg(rcode int, ans ...dns.RR) *dns.Msg {
 	m.Answer = ans
 	return m
 }
+
+func plIPsOfResult(res *filtering.Result) (ips []netip.Addr) {
+	if res == nil {
+		return nil
+	}
+	for _, r := range res.Rules {
+		if r.IP != (netip.Addr{}) {
+			dup := false
+			for _, x := range ips {
+				if x == r.IP {
+					dup = true
+				}
+			}
+			if !dup {
+				ips = append(ips, r.IP)
+			}
+		}
+	}
+	return ips
+}
+
